@@ -167,7 +167,41 @@ func c14Session(t *rapid.T) {
 	}
 	for i := 0; i < nsteps && alive; i++ {
 		var step string
-		switch rapid.SampledFrom([]string{"plain", "plain", "plain", "arg", "arg", "keys", "keys", "resize", "chain"}).Draw(t, "kind") {
+		switch rapid.SampledFrom([]string{"plain", "plain", "plain", "arg", "arg", "keys", "keys", "resize", "chain", "mouse", "mouse"}).Draw(t, "kind") {
+		case "mouse":
+			// a gesture in SGR mouse reports: press, a few drag reports, release - on the edges of the
+			// window (scrollbar, borders), inside it and outside of it
+			xs := []int{1, 2, 3, w / 2, w - 3, w - 2, w - 1, w, w, w + 5}
+			ys := []int{1, 2, 3, h / 2, h - 3, h - 2, h - 1, h, h + 5}
+			pt := func(label string) (int, int) {
+				return rapid.SampledFrom(xs).Draw(t, label+"X"), rapid.SampledFrom(ys).Draw(t, label+"Y")
+			}
+			btn := rapid.SampledFrom([]int{0, 0, 0, 2, 1}).Draw(t, "button")
+			x, y := pt("press")
+			var bs []byte
+			bs = append(bs, fmt.Sprintf("\x1b[<%d;%d;%dM", btn, x, y)...)
+			for k := rapid.IntRange(0, 3).Draw(t, "drags"); k > 0; k-- {
+				x, y = pt("drag")
+				bs = append(bs, fmt.Sprintf("\x1b[<%d;%d;%dM", 32+btn, x, y)...)
+			}
+			if rapid.IntRange(0, 4).Draw(t, "release") > 0 {
+				bs = append(bs, fmt.Sprintf("\x1b[<%d;%d;%dm", btn, x, y)...)
+			}
+			if rapid.Bool().Draw(t, "edgeSweep") {
+				// the same gesture from every column near the right edge (scrollbar / border columns differ
+				// with the options) on a few rows, dragged to the top and to the bottom of the terminal
+				bs = bs[:0]
+				for cx := w - 3; cx <= w; cx++ {
+					for _, cy := range []int{2, 3, 4, h / 2, h - 2, h - 3, h - 4} {
+						if cx < 1 || cy < 1 {
+							continue
+						}
+						bs = append(bs, fmt.Sprintf("\x1b[<0;%d;%dM\x1b[<32;%d;1M\x1b[<32;%d;%dM\x1b[<0;%d;%dm", cx, cy, cx, cx, h, cx, h)...)
+					}
+				}
+			}
+			step = fmt.Sprintf("mouse %q", bs)
+			s.SendHex(bs)
 		case "plain":
 			a := rapid.SampledFrom(acts).Draw(t, "action")
 			step = "POST " + a
